@@ -50,7 +50,9 @@ def time_job(item, tier):
 
     def bad(rule, msg, case):
         if len(out) < 30:
-            out.append({"rule": rule, "msg": msg, "case": case})
+            # replay = the same work item again (same rows, same kind, same value set)
+            out.append({"rule": rule, "msg": msg,
+                        "case": dict(case, item=[kind, lo, hi], tier=tier)})
 
     def exact_us(t):
         return t.time * int(t.unit.value)
@@ -440,10 +442,8 @@ def case_job(case, tier):
         # re-run the BFS to the length of the history; cheap
         r = queue_job(("queue", len(case["queue_history"])), tier)
         return {"violations": [v for v in r["violations"]]}
-    vals = all_values("thorough")
-    idx = [i for i, v in enumerate(vals) if list(v) == list(case["a"])]
-    r = time_job(("pairs", idx[0], idx[0] + 1), "thorough")
-    return {"violations": r["violations"]}
+    kind, lo, hi = case["item"]
+    return {"violations": time_job((kind, lo, hi), case.get("tier", tier))["violations"]}
 
 
 def items(tier):
